@@ -35,4 +35,33 @@ def serverParse (cfg : Config) (W : World) (parsed : Option PyVal) : Server.Pars
     (`Payload.dump`, `Payload.load`, `rpcLoad`). -/
 def useJsonclassGates : Bool × Bool := (true, true)
 
+/-- Which expression the call sites of `dump` / `dumps` / `load` / `loads` / `Fault(…)` of a (module, class) pass
+    as `config`: the configuration of the proxy, of the batch, of the fault, of the server — never nothing (the
+    default configuration has `use_jsonclass = True`).  In the models the configuration is an explicit argument of
+    `Payload.dump`, `Payload.load`, `rpcLoad`, `serverParse`, `Server.marshaledDispatch`. -/
+def configExprs : List (String × String × List String) := [
+  ("jsonrpc", "ServerProxy", ["self._config"]), ("jsonrpc", "MultiCallMethod", ["self._config"]),
+  ("jsonrpc", "Fault", ["self.config"]), ("jsonrpc", "", ["config"]),
+  ("SimpleJSONRPCServer", "", ["json_config"]),
+  ("SimpleJSONRPCServer", "SimpleJSONRPCDispatcher", ["config", "self.json_config"]),
+  ("SimpleJSONRPCServer", "SimpleJSONRPCRequestHandler", ["config"])]
+
+/-- Every extracted call site (module, class, function, callee, config expression) passes one of the expressions
+    its class is allowed to pass. -/
+def configForwarded (sites : List (String × String × String × String × String)) : Bool :=
+  sites.all fun s =>
+    match configExprs.find? (fun e => e.1 == s.1 && e.2.1 == s.2.1) with
+    | some e => e.2.2.contains s.2.2.2.2
+    | Option.none => false
+
+/-- The call sites on the path of every remote call, of a batch, of a notification and of a reply. -/
+def requiredConfigSites : List (String × String × String × String × String) := [
+  ("jsonrpc", "ServerProxy", "_request", "dumps", "self._config"),
+  ("jsonrpc", "ServerProxy", "_request_notify", "dumps", "self._config"),
+  ("jsonrpc", "ServerProxy", "_run_request", "loads", "self._config"),
+  ("jsonrpc", "MultiCallMethod", "request", "dumps", "self._config"),
+  ("jsonrpc", "", "dumps", "dump", "config"), ("jsonrpc", "", "loads", "load", "config"),
+  ("SimpleJSONRPCServer", "SimpleJSONRPCDispatcher", "_marshaled_dispatch", "loads", "self.json_config"),
+  ("SimpleJSONRPCServer", "SimpleJSONRPCDispatcher", "_marshaled_single_dispatch", "dump", "config")]
+
 end JRV.JsonClass
